@@ -1,6 +1,7 @@
 // C18 - truncated files are rejected; failed writes are never reported OK; abort releases everything.
 // Enumeration per generated scenario: every crash point (prefix length), every sink operation / byte budget, every abort point.
 #include "common.h"
+#include <cerrno>
 #include "peercmp.h"
 
 namespace {
@@ -102,7 +103,8 @@ void run_c18(sim::RunCtx& ctx) {
             sim::set_focus(K_SINK, my);
             sim::reset_fault_plans();
             sim::sinkplan.vbuf_mode = VBM[f.vb]; sim::sinkplan.vbuf_size = VBS[f.vb];
-            if (f.kind == 0) sim::sinkplan.eio_at_op = f.arg; else if (f.kind == 1) sim::sinkplan.enospc_at_byte = f.arg; else if (f.kind == 2) sim::sinkplan.flush_fail = true; else sim::sinkplan.close_fail = true;
+            static const int ERRNOS[] = {EIO, EINTR, EAGAIN, EPIPE, EDQUOT};       // one failed write, the sink works again afterwards: whatever errno says, the bytes are lost
+            if (f.kind == 0) { sim::sinkplan.eio_at_op = f.arg; sim::sinkplan.eio_errno = ERRNOS[(size_t)(f.arg + f.vb) % 5]; } else if (f.kind == 1) sim::sinkplan.enospc_at_byte = f.arg; else if (f.kind == 2) sim::sinkplan.flush_fail = true; else sim::sinkplan.close_fail = true;
             FILE* user_stream = nullptr;
             exec::WriteOutcome w = exec::run_writer(p, path, -1, p.path_mode ? nullptr : &user_stream);
             bool fired_before_user_close = sim::io.sink_fault_fired;
@@ -153,7 +155,7 @@ namespace sim {
 void register_c18() {
     Property p;
     p.id = "C18"; p.level = "fault_enumeration";
-    p.rule = "per seeded scenario (writer plan with adversarial byte-array contents that look like file tails) the fault space is enumerated: (1) every proper prefix length of the fault-free image (all of them for images <= 6 KiB, else the last 4 KiB, +-3 bytes around every sink write boundary, the first 16 and 300 sampled) presented by fread, mmap and buffer: open must fail with a proper error unless the peer reader strictly validates the prefix as a complete file (then content must match); (2) under each of 4 stdio buffering modes: EIO at every sink write, ENOSPC at byte budgets +-1 around every write boundary plus samples, failure of the flush-time write, fclose failure: a fired fault must surface as non-OK from some writer call, and close==OK implies the sink holds the fault-free bytes; (3) carquet_writer_abort after every prefix of the call history: no file left (path), caller's stream untouched (FILE*), ledger empty; one evaluation = one fault point; non-trivial/distinct as in C01 for the scenario";
+    p.rule = "per seeded scenario (writer plan with adversarial byte-array contents that look like file tails) the fault space is enumerated: (1) every proper prefix length of the fault-free image (all of them for images <= 6 KiB, else the last 4 KiB, +-3 bytes around every sink write boundary, the first 16 and 300 sampled) presented by fread, mmap and buffer: open must fail with a proper error unless the peer reader strictly validates the prefix as a complete file (then content must match); (2) under each of 4 stdio buffering modes: one failed sink write at every position (errno rotating through EIO, EINTR, EAGAIN, EPIPE, EDQUOT; the sink works again afterwards), ENOSPC at byte budgets +-1 around every write boundary plus samples, failure of the flush-time write, fclose failure: a fired fault must surface as non-OK from some writer call, and close==OK implies the sink holds the fault-free bytes; (3) carquet_writer_abort after every prefix of the call history: no file left (path), caller's stream untouched (FILE*), ledger empty; one evaluation = one fault point; non-trivial/distinct as in C01 for the scenario";
     p.quick_runs = 400; p.thorough_runs = 40000;
     p.run = run_c18; p.recheck = 48;
     p.assumptions = {"a prefix counts as 'itself a complete Parquet file' iff the independent peer reader accepts it under its strict structural checks",
